@@ -316,6 +316,8 @@ mkbinaryexpr(struct location *loc, enum tokenkind op, struct expr *l, struct exp
 	case TBOR:
 	case TXOR:
 	case TBAND:
+		if (!(lp & PROPINT) || !(rp & PROPINT))
+			error(loc, "operands to '%s' operator must be integer", tokstr[op]);
 		t = commonreal(&l, &r);
 		break;
 	case TADD:
